@@ -44,7 +44,7 @@ def strategy(tier):
             "flags": gen.weighted(
                 (3, st.just([True, True])), (2, st.tuples(st.booleans(), st.booleans()).map(list))
             ),
-            "filters": gen.filter_configs(max_len=2),
+            "filters": gen.filter_configs(max_len=2, custom=True),
             "pre_observer": st.sampled_from([None, None, ["machines", "jobs"], ["operations"], ["jobs"]]),
             "history": gen.histories(max_len=44),
             "reset_at": st.one_of(st.none(), st.integers(0, 20)),
@@ -130,7 +130,7 @@ def check_case(case, ctx):
         ctx.label("job_nodes_without_machine_nodes")
     flags = case["flags"]
     deferred = bool(case.get("deferred"))
-    attach_after = min(case.get("attach_after", 0), ref(inst).n_ops - 1) if case["reset_at"] is None else 0
+    attach_after = min(case.get("attach_after", 0), ref(inst).n_ops - 1)
     pre_model = ref(inst)
     for k in range(attach_after):
         # the episode is already under way when the updater is attached
